@@ -473,6 +473,117 @@ sys.exit(1 if bad else 0)
 """
 
 
+def native_tetrahedron_body(seed):
+    """Tetrahedron: J = polarization at points strictly inside the body, 0 strictly outside (zero-volume bodies have no interior), decided by an
+    independent oracle in exact rational arithmetic (barycentric coordinates by Cramer's rule over Fractions of the float inputs); both vertex
+    orders (right- and left-handed), sizes from 1 m to 0.1 mm, several tetrahedra in one functional call; returns (evaluations, messages)"""
+    import warnings
+    from fractions import Fraction as Fr
+
+    import magpylib as magpy
+
+    warnings.simplefilter("ignore")
+    rng = np.random.default_rng(seed)
+    pol = (0.1, 0.2, 0.3)
+
+    def det3(a, b, c):
+        return a[0] * (b[1] * c[2] - b[2] * c[1]) - a[1] * (b[0] * c[2] - b[2] * c[0]) + a[2] * (b[0] * c[1] - b[1] * c[0])
+
+    def bary(v, p):
+        v = [[Fr(float(x)) for x in q] for q in v]
+        p = [Fr(float(x)) for x in p]
+        e = [[v[k][i] - v[0][i] for i in range(3)] for k in (1, 2, 3)]
+        d = [p[i] - v[0][i] for i in range(3)]
+        D = det3(*e)
+        if D == 0:
+            return None
+        lam = [det3(d, e[1], e[2]) / D, det3(e[0], d, e[2]) / D, det3(e[0], e[1], d) / D]
+        return [1 - sum(lam)] + lam
+
+    bad, n = [], 0
+    cases = []
+    for size in (1.0, 1e-2, 1e-4):
+        for _ in range(6):
+            v = rng.normal(size=(4, 3)) * size
+            cases.append((v, size))
+            cases.append((v[[0, 1, 3, 2]], size))
+    cases += [(np.array([(0, 0, 0), (1, 0, 0), (0, 1, 0), (1, 1, 0)], dtype=float), 1.0), (np.zeros((4, 3)), 1.0),
+              (np.array([(0, 0, 0), (1, 0, 0), (2, 0, 0), (0, 0, 1)], dtype=float), 1.0)]
+    allv, allo, alle = [], [], []
+    for v, size in cases:
+        w = rng.dirichlet(np.ones(4), size=12)
+        cand = np.concatenate([w @ v, v.mean(axis=0) + rng.normal(size=(12, 3)) * size * 0.8, v.mean(axis=0) + rng.normal(size=(4, 3)) * size * 5])
+        obs, exp = [], []
+        for p_ in cand:
+            lam = bary(v, p_)
+            if lam is None:
+                obs.append(p_), exp.append(0)
+                continue
+            m = min(min(lam), min(1 - x for x in lam))
+            if abs(float(m)) < 1e-6:
+                continue  # too close to the surface for a float decision
+            obs.append(p_), exp.append(1 if m > 0 else 0)
+        obs, exp = np.array(obs), np.array(exp)
+        try:
+            J = magpy.magnet.Tetrahedron(vertices=v, polarization=pol).getJ(obs)
+        except Exception as e:  # pylint: disable=broad-except
+            bad.append(f"Tetrahedron(vertices={v.tolist()}).getJ raised {type(e).__name__}: {e}")
+            continue
+        n += len(obs)
+        wrong = np.abs(J - exp[:, None] * np.array(pol)).max(axis=1) > 1e-12
+        if wrong.any():
+            i = int(np.argmax(wrong))
+            bad.append(f"Tetrahedron(vertices={v.tolist()}): J at {obs[i].tolist()}, a point strictly {'inside' if exp[i] else 'outside'} the body (exact barycentric coordinates"
+                       f"{'' if bary(v, obs[i]) is None else ' ' + str([round(float(x), 6) for x in bary(v, obs[i])])}), is {J[i].tolist()} ({int(wrong.sum())} of {len(obs)} points)")
+        allv += [v] * len(obs)
+        allo += list(obs)
+        alle += list(exp)
+    # all tetrahedra in one functional call: every row decided against its own vertices
+    try:
+        J = magpy.getJ("Tetrahedron", np.array(allo), vertices=np.array(allv), polarization=np.tile(pol, (len(allo), 1)))
+        n += len(allo)
+        wrong = np.abs(J - np.array(alle)[:, None] * np.array(pol)).max(axis=1) > 1e-12
+        if wrong.any():
+            i = int(np.argmax(wrong))
+            bad.append(f"getJ('Tetrahedron', ...) with {len(cases)} different bodies in one call: row {i} (vertices {allv[i].tolist()}, observer {allo[i].tolist()}, strictly "
+                       f"{'inside' if alle[i] else 'outside'}) has J = {J[i].tolist()} ({int(wrong.sum())} rows)")
+    except Exception as e:  # pylint: disable=broad-except
+        bad.append(f"getJ('Tetrahedron', ...) with several bodies in one call raised {type(e).__name__}: {e}")
+    return n, bad
+
+
+REPLAY_PI = """import sys, json
+import numpy as np
+from fractions import Fraction as Fr
+from magpylib._src.fields.field_BH_tetrahedron import point_inside
+w = json.loads('{w}')
+v, x = np.array([w["vertices"]], dtype=float), np.array([w["point"]], dtype=float)
+def det3(a, b, c):
+    return a[0] * (b[1] * c[2] - b[2] * c[1]) - a[1] * (b[0] * c[2] - b[2] * c[0]) + a[2] * (b[0] * c[1] - b[1] * c[0])
+V = [[Fr(float(t)) for t in q] for q in v[0]]; X = [Fr(float(t)) for t in x[0]]
+e = [[V[k][i] - V[0][i] for i in range(3)] for k in (1, 2, 3)]; d = [X[i] - V[0][i] for i in range(3)]
+D = det3(*e)
+if D == 0:
+    exp = False
+else:
+    lam = [det3(d, e[1], e[2]) / D, det3(e[0], d, e[2]) / D, det3(e[0], e[1], d) / D]
+    exp = all(0 < t < 1 for t in lam) and sum(lam) < 1
+try:
+    got = bool(point_inside(x, v, "auto")[0])
+except Exception as ex:
+    print("point_inside raised", type(ex).__name__, ex); sys.exit(1)
+print("point_inside:", got, " exact barycentric oracle (strictly inside):", exp)
+sys.exit(0 if got == exp else 1)
+"""
+
+REPLAY_TEB = """import sys
+from checks.c02 import native_tetrahedron_body
+n, bad = native_tetrahedron_body({seed})
+for b in bad[:6]: print(b)
+sys.exit(1 if bad else 0)
+"""
+
+
 def native_segment_interior(dim, point):
     """J at an interior point of a partial-angle segment (witness of the known finding segment-angles-beyond-360)"""
     import magpylib as magpy
@@ -501,6 +612,7 @@ def main(tier, seed):
                          "magnet_cylinder_segment_Hfield, triangle_Bfield, dipole_Hfield, current_circle_Hfield, "
                          "current_polyline_Hfield) are row-wise functions of their row arguments (C06 obligation); their values are arbitrary")
     rep.assumed_contract("tetrahedron.point_inside: symmetric under exchange of vertices 2,3 — PROVED here on the real code (rational normal form), row-wise proved in C06; "
+                         "and its full contract (inside <=> volume != 0 and barycentric coordinates by Cramer's rule in the simplex) PROVED here on the real code; "
                          "check_chirality: returns the vertices with 2,3 exchanged exactly on negative-determinant rows — PROVED here on the real code "
                          "(checks/c06_cores.py chirality_contract), so the Tetrahedron wrapper's stub is a checked contract")
     rep.assumed_contract("BHJM_cylinder_segment_internal is verified modularly: its callees BHJM_cylinder_segment and "
@@ -516,6 +628,7 @@ def main(tier, seed):
 
     tasks.append(("core.check_chirality.contract", lambda r: c06_cores.chirality_contract(r)))
     tasks.append(("core.point_inside.symmetry", lambda r: c06_cores.point_inside_symmetry(r)))
+    tasks.append(("core.point_inside.contract", lambda r: c06_cores.point_inside_contract(r)))
     fails = run_parallel(rep, tasks)
     known = {k["id"]: k for k in load_known() if k["property"] == PID and k.get("status") == "known"}
     # known findings: proved on the complement; witness must still fail natively
@@ -537,6 +650,9 @@ def main(tier, seed):
     rng = np.random.default_rng(seed + 1)
     for f in fails:
         if f.get("known_region"):
+            continue
+        if f.get("witness"):
+            rep.violation(f["name"], {"why": f["why"], "input": f["witness"], "script": REPLAY_PI.format(w=json.dumps(f["witness"]))})
             continue
         nm = f["wrapper"]
         payload = {"why": f["why"], "wrapper": nm}
@@ -593,6 +709,13 @@ def main(tier, seed):
                 failures=len(bad_tb), exhaustive=False)
     for b in bad_tb[:2]:
         rep.violation("standin.trimesh-body", {"native_result": b, "script": REPLAY_TMB.format(seed=seed)})
+    nte, bad_te = native_tetrahedron_body(seed)
+    rep.standin("Tetrahedron: J = polarization strictly inside / 0 strictly outside against an exact rational barycentric oracle; right- and left-handed vertex orders, zero-volume bodies, "
+                "sizes 1 m .. 0.1 mm, object interface and many bodies in one functional call", "39 bodies x ~25 points, twice", nte, nte,
+                "random convex combinations, near and far points, at least 1e-6 (barycentric) away from the surface", [dict(vertices="random normal * 1e-4, vertices 2 and 3 exchanged")],
+                failures=len(bad_te), exhaustive=False)
+    for b in bad_te[:2]:
+        rep.violation("standin.tetrahedron-body", {"native_result": b, "script": REPLAY_TEB.format(seed=seed)})
     rep.standin("native B=mu0*H+J / J=mu0*M / J in {0,pol} on random and special rows (faces, edges, axis), all wrappers",
                 f"{nrows} rows per wrapper", total, total, "random rows incl. rows placed on faces/edges; known regions skipped",
                 samples, failures=nbad)
